@@ -80,17 +80,61 @@ def zeroM : Metadata :=
 `Generated.C17.decodeTargets`: every receiver is a fresh composite literal, every scratch value a
 fresh local -/
 def decodeTargetTable : List (String × String) :=
-  [("leafTaskProcessor.processMetadataSuggest", "stmtQuery = &stmt.MetricMetadata{}"),
+  [("leafTaskProcessor.processMetadataSuggest", "var stmtQuery = &stmt.MetricMetadata{}"),
    ("leafTaskProcessor.processDataSearch", "stmtQuery := stmt.Query{}"),
-   ("intermediateTaskProcessor.processDataSearch", "stmtQuery = &stmt.Query{}"),
-   ("intermediateTaskProcessor.processMetadataSearch", "stmtQuery = &stmt.MetricMetadata{}"),
+   ("intermediateTaskProcessor.processDataSearch", "var stmtQuery = &stmt.Query{}"),
+   ("intermediateTaskProcessor.processMetadataSearch", "var stmtQuery = &stmt.MetricMetadata{}"),
    ("Query.UnmarshalJSON", "inner := innerQuery{}"),
    ("MetricMetadata.UnmarshalJSON", "inner := innerMetadata{}"),
    ("Unmarshal", "var expr exprData"),
-   ("unmarshalCall", "var call innerCallExpr"),
-   ("unmarshalBinary", "var binary innerBinaryExpr"),
-   ("unmarshalSelectItem", "var selectItem innerSelectItem"),
-   ("unmarshalOrderByExpr", "var orderByItem innerOrderByExpr")]
+   ("unmarshalCall", "innerExpr := innerCallExpr{}"),
+   ("unmarshalBinary", "innerExpr := innerBinaryExpr{}"),
+   ("unmarshalSelectItem", "innerExpr := innerSelectItem{}"),
+   ("unmarshalOrderByExpr", "innerExpr := innerOrderByExpr{}")]
+
+/-- what `Marshal` / `MarshalJSON` encode with (tied by `Generated.C17.marshalCodec`): lindb/common's
+`encoding.JSONMarshal` = jsoniter `ConfigCompatibleWithStandardLibrary` (floats in strconv's
+shortest form that parses back to the same float64) -/
+def marshalCodecTable : List (String × String) :=
+  [("Marshal", "encoding.JSONMarshal"), ("Query.MarshalJSON", "encoding.JSONMarshal"),
+   ("MetricMetadata.MarshalJSON", "encoding.JSONMarshal"),
+   ("lindb/common encoding", "jsoniter.ConfigCompatibleWithStandardLibrary")]
+
+/-- the Go fields of every expression node type (tied by `Generated.C17.exprNodeFields`): exactly
+the arguments of the model's constructors -/
+def exprNodeFieldTable : List (String × List (String × String)) := [
+  ("BinaryExpr", [("Left", "Expr"), ("Right", "Expr"), ("Operator", "BinaryOP")]),
+  ("CallExpr", [("FuncType", "function.FuncType"), ("Params", "[]Expr")]),
+  ("EqualsExpr", [("Key", "string"), ("Value", "string")]),
+  ("FieldExpr", [("Name", "string")]),
+  ("InExpr", [("Key", "string"), ("Values", "[]string")]),
+  ("LikeExpr", [("Key", "string"), ("Value", "string")]),
+  ("NotExpr", [("Expr", "Expr")]),
+  ("NumberLiteral", [("Val", "float64")]),
+  ("OrderByExpr", [("Expr", "Expr"), ("Desc", "bool")]),
+  ("ParenExpr", [("Expr", "Expr")]),
+  ("RegexExpr", [("Key", "string"), ("Regexp", "string")]),
+  ("SelectItem", [("Expr", "Expr"), ("Alias", "string")])]
+
+/-- the where-condition stack machine in the source (tied by `Generated.C17.tagFilterAttach`):
+what `visitTagFilterExpr` pushes, where `visitTagValue` / `setTagFilterExprValue` put a value, and
+the parent link + `b.condition = e` of `completeTagFilterExpr` -/
+def tagFilterAttachTable : List (String × String) := [
+  ("visitTagFilterExpr: case ctx.TagKey() != nil", "expr = b.createTagFilterExpr(tagKey, ctx)"),
+  ("visitTagFilterExpr: case ctx.T_OPEN_P() != nil", "expr = &stmt.ParenExpr{}"),
+  ("visitTagFilterExpr: case ctx.T_AND() != nil", "expr = &stmt.BinaryExpr{Operator: stmt.AND}"),
+  ("visitTagFilterExpr: case ctx.T_OR() != nil", "expr = &stmt.BinaryExpr{Operator: stmt.OR}"),
+  ("visitTagFilterExpr: ", "b.exprStack.Push(expr)"),
+  ("visitTagValue: case *stmt.NotExpr", "b.setTagFilterExprValue(expr.Expr, tagValue)"),
+  ("visitTagValue: case stmt.Expr", "b.setTagFilterExprValue(expr, tagValue)"),
+  ("setTagFilterExprValue: case *stmt.EqualsExpr", "e.Value = tagValue"),
+  ("setTagFilterExprValue: case *stmt.LikeExpr", "e.Value = tagValue"),
+  ("setTagFilterExprValue: case *stmt.RegexExpr", "e.Regexp = tagValue"),
+  ("setTagFilterExprValue: case *stmt.InExpr", "e.Values = append(e.Values, tagValue)"),
+  ("completeTagFilterExpr: if !b.exprStack.Empty() / case *stmt.BinaryExpr / if parentExpr.Left == nil", "parentExpr.Left = e"),
+  ("completeTagFilterExpr: if !b.exprStack.Empty() / case *stmt.BinaryExpr / else / if parentExpr.Right == nil", "parentExpr.Right = e"),
+  ("completeTagFilterExpr: if !b.exprStack.Empty() / case *stmt.ParenExpr", "parentExpr.Expr = e"),
+  ("completeTagFilterExpr: ", "b.condition = e")]
 
 /-- how a worker obtains the `innerQuery` it decodes into -/
 inductive ScratchPolicy where
